@@ -601,6 +601,39 @@ def r16_14(run, model):
            witness="link of a cyclic pair: `package A expects interface_hash .. for B (rebuild A)` instead of the cycle")
 
 
+def r16_15(run, model):
+    run.rule("R16.15", "whether a package is accepted does not depend on the order of its items or the names of its files: in "
+                       "collect_typedefs what the other definitions look up by name - traits (`impl T for ..`, `dyn T`) and extern types - "
+                       "is defined in a loop over all items that comes before the loop defining impls, functions, extern functions and the "
+                       "bodies of structs and enums (structs and enums are pre-declared by name already)")
+    f = model.fn("collect_typedefs", TL)
+    loops = [l for l in f.body["stmts"] if (l["k"] == "ExprStmt" and l["expr"]["k"] == "For") or l["k"] == "For"]
+    loops = [l["expr"] if l["k"] == "ExprStmt" else l for l in loops]
+    if not loops:
+        raise AnalysisIncomplete("collect_typedefs: no loop over the top-level items found")
+
+    def pos(names):
+        out = []
+        for i, l in enumerate(loops):
+            if any(c["k"] == "Call" and S.callee_name(c) in names for c in S.walk(l["body"])):
+                out.append(i)
+        return out
+    providers = {"traits": ("define_trait",), "extern types": ("define_extern_type",)}
+    users = ("define_trait_impl", "define_inherent_impl", "define_function", "define_extern_go", "define_struct", "define_enum")
+    u = pos(users)
+    if not u:
+        raise AnalysisIncomplete("collect_typedefs: the loop defining impls and functions was not found")
+    for what, names in providers.items():
+        p_ = pos(names)
+        if not p_:
+            raise AnalysisIncomplete(f"collect_typedefs: the definition of {what} was not found")
+        ok = max(p_) < min(u)
+        run.ob("R16.15", f"collect_typedefs|{what} are defined before anything that names them", ok, site(TL, loops[p_[0]]["sp"]),
+               f"{what}: loop #{[i + 1 for i in p_]}; impls / functions / bodies: loop #{[i + 1 for i in u]}",
+               witness="package Shapes = circle.gom (struct + impl Area for Circle) + traits.gom (trait Area): `Trait Shapes::Area is not defined`; "
+                       "renaming traits.gom to area.gom makes the package valid")
+
+
 def run(run, model):
     mir = Mir(run.facts)
     run.try_rule(r16_1, model, mir)
@@ -616,6 +649,7 @@ def run(run, model):
     run.try_rule(r16_12, model)
     run.try_rule(r16_13, model)
     run.try_rule(r16_14, model)
+    run.try_rule(r16_15, model)
     # a stale dependant names items its dependency no longer exports: the pinned-hash comparison is how link reports that (shared with C15 R15.4)
     from rules import c15 as _c15
     run.try_rule(_c15.r15_4, model)
